@@ -4,6 +4,10 @@ from __future__ import annotations
 PLANS = {
     "C03": {
         "machine": "regworld",
+        "technique": 'deterministic simulation: seeded multi-actor op histories over the shared node registry with scheduler-owned GC, failing replaces and stale-handle ops, checked after every step against a reference registry model; ddmin-shrunk replay files',
+        "level_text": 'seeded exploration of histories (thousands of runs x <=60 steps) of every registry-relevant public op by 1-4 actors, with ID_DIGEST_SIZE in {1,2,8,16}, reference-model invariants after every step; evidence, not proof',
+        "level_note": 'trusted: the reference registry model (DESIGN A.2), the universe TABLE for child enumeration, CPython weakref/gc semantics; the id-determinism clause is only checked at digest >= 8 and only when no registered twin exists (no suffix format assumed)',
+        "design_ref": 'DESIGN.md 5/C03, A.2',
         "level": "exploration",
         "runs": {"quick": 6000, "thorough": 120000},
         "wall_cap": {"quick": 75, "thorough": 900},
@@ -16,6 +20,10 @@ PLANS = {
     },
     "C14": {
         "machine": "regworld",
+        "technique": 'deterministic simulation: same registry world; duplicate / ASTNode.replace / dataclasses.replace post-conditions checked per op under arbitrary registry histories (twins, detached originals, shared subtrees)',
+        "level_text": 'seeded exploration of histories; per-op oracles for faithfulness, object-independence (identity over whole trees), registration and id rules',
+        "level_note": 'trusted: universe TABLE, registry model; expected ids only in the no-registered-twin case at digest >= 8',
+        "design_ref": 'DESIGN.md 5/C14',
         "level": "exploration",
         "runs": {"quick": 6000, "thorough": 120000},
         "wall_cap": {"quick": 75, "thorough": 900},
@@ -27,6 +35,10 @@ PLANS = {
     },
     "C10": {
         "machine": "regworld",
+        "technique": 'deterministic simulation: union world of all v2 op kinds incl. faulting callbacks; frame-condition monitor (value+identity snapshot of every pre-existing node) after every step',
+        "level_text": 'seeded exploration of histories; the frame condition is evaluated on every reachable pre-existing node after every op (returned or raised)',
+        "level_note": 'trusted: snapshot function (id, content_id, hash, field value identities, scalar reprs); nodes unreachable from user handles are not monitored (they are required dead by C03)',
+        "design_ref": 'DESIGN.md 5/C10',
         "level": "exploration",
         "runs": {"quick": 5000, "thorough": 100000},
         "wall_cap": {"quick": 75, "thorough": 900},
@@ -37,6 +49,10 @@ PLANS = {
     },
     "C01": {
         "machine": "regworld",
+        "technique": 'deterministic simulation: registry world biased to twins / near-miss mutants / separator-bearing strings, partition check content_id vs harness-side structural key after every step; peer interpreter with another PYTHONHASHSEED and permuted field declaration order',
+        "level_text": 'seeded exploration; decides independence of content_id from registry history, lifetime, process/hash seed and field order; injectivity is sampled on all node pairs each world state contains',
+        "level_note": 'trusted: structural key (DESIGN A.1) from the universe TABLE; digest sizes >= 8 only; the pure injectivity core is sampled, not enumerated',
+        "design_ref": 'DESIGN.md 5/C01, A.1',
         "level": "exploration",
         "runs": {"quick": 5000, "thorough": 100000},
         "wall_cap": {"quick": 75, "thorough": 900},
